@@ -5,13 +5,11 @@ kernel-evaluated table theorems (stated for `asciiUni` = Go's tables on ASCII) t
 ASCII and on the key codes above the Unicode range (`AgreeOnKeys`).
 -/
 import VaxisModel.Model.Key
-import VaxisModel.Model.TermKey
 import VaxisModel.Spec.KeyEnc
-import VaxisModel.Spec.TermInput
 import VaxisModel.Spec.KeyEvent
 
 namespace VaxisModel.Lemmas.KeyCongr
-open VaxisModel.Model.Key VaxisModel.Model.TermKey VaxisModel.Spec.KeyEnc VaxisModel.Spec.TermInput VaxisModel.Gen.Keys
+open VaxisModel.Model.Key VaxisModel.Spec.KeyEnc VaxisModel.Gen.Keys
 
 /-- The two oracles give the same answers at the rune `r` (class predicates and simple case maps). -/
 structure AgreeAt (u v : Uni) (r : Int) : Prop where
@@ -59,20 +57,5 @@ theorem matchSpec_congr_uni (u v : Uni) (k : Key) (key : Int) (m : Nat) (h : Agr
     matchSpec u k key m ↔ matchSpec v k key m := by
   unfold matchSpec
   rw [h.isLetter, h.isGraphic, h.isLower, h.toUpper]
-
-theorem shiftedOf_congr (u v : Uni) (k : Key) (h : AgreeAt u v k.keycode) : shiftedOf u k = shiftedOf v k := by
-  unfold shiftedOf
-  rw [h.isLower, h.toUpper]
-
-theorem encodeXtermCore_congr (u v : Uni) (k : Key) (pam ckm : Bool) (h : AgreeAt u v k.keycode) :
-    encodeXtermCore u k pam ckm = encodeXtermCore v k pam ckm := by
-  unfold encodeXtermCore
-  simp only [h.toUpper]
-
-theorem encodeXterm_congr (u v : Uni) (k : Key) (pam ckm : Bool) (h : AgreeAt u v (keypadLegend k.keycode)) :
-    encodeXterm u k pam ckm = encodeXterm v k pam ckm := by
-  unfold encodeXterm
-  have e := encodeXtermCore_congr u v { k with keycode := keypadLegend k.keycode } pam ckm h
-  simp only [e]
 
 end VaxisModel.Lemmas.KeyCongr
